@@ -7,16 +7,16 @@ props = [json.loads(l) for l in open(os.path.join(HERE, "properties.jsonl"))]
 E1 = "explicit-state BFS over the real Framework::trigger_events (every batch of the alphabet x time steps x every outcome of every RNG draw, to a depth bound, for families of 1-3 small machines)"
 META = {
  "C01": dict(engine="E1", cat="model_checking", ref="3 C01",
-   text=E1 + "; oracle: every call returns (panics with overflow checks on, aborts and hangs are contained by a supervisor and attributed through breadcrumbs) and performs at most 4*(events+1)*(machines+1) machine steps; foreign / usize::MAX ids, backwards and huge clock steps, all 11 distribution families and saturated counters are part of the alphabet.",
+   text=E1 + "; oracle: every call returns (panics with overflow checks on, aborts and hangs are contained by a supervisor and attributed through breadcrumbs) and performs at most 4*(events+1)*(machines+1) machine steps; foreign / usize::MAX ids, backwards and huge clock steps, all 11 distribution families and saturated counters are part of the alphabet. Two sub-checks run outside the explorer: extreme std::time instants (spans up to 2^62 s), and Binomial timeouts under ordinary seeded streams in watchdog-isolated helper processes.",
    note="Bounded by the machine families, depth and menus in the evidence. Distribution samplers under extreme RNG words are C13's subject.",
    tech="explicit-state BFS of the real implementation with crash containment (bounded-exhaustive over machines x histories x RNG choice tree)"),
  "C02": dict(engine="E1", cat="model_checking", ref="3 C02",
    text=E1 + " restricted to single-event calls; the observer recounts NormalSent / PaddingSent from the fed history (public inputs only) and judges every returned SendPadding against allowance, machine fraction and framework fraction.",
-   note="Budgets {0,1,2} x fractions {0,.25,.5,1}; 1-3 machines; histories to the depth bound.",
+   note="Budgets {0,1,2} x fractions {0,.25,.5,1} plus own / framework fractions 5e-324 .. f64::EPSILON; 1-3 machines; histories to the depth bound.",
    tech="explicit-state BFS of the real implementation with an independent recounting observer as product state"),
  "C03": dict(engine="E1", cat="model_checking", ref="3 C03",
-   text=E1 + " over a virtual clock (steps 0, +1, +3, +1000, -2 us); the observer recomputes blocked time from the fed BlockingBegin/BlockingEnd events and time stamps and judges every returned BlockOutgoing (replace escape, microsecond allowance, machine and framework share).",
-   note="Budgets {0,2,1000}us x fractions {0,.25,.5,1}; 1-2 machines; depth bound.",
+   text=E1 + " over a virtual clock (steps 0, +1, +3, +1000, -2 us); the observer recomputes blocked time from the fed BlockingBegin/BlockingEnd events and time stamps and judges every returned BlockOutgoing (replace escape, microsecond allowance, machine and framework share). A second phase runs every history to the depth bound over the real std::time::Instant with nanosecond steps and decides the share comparison exactly (dyadic big-integer comparison, no slack).",
+   note="Budgets {0,2,1000}us x fractions {0,.25,.5,1} plus fractions at the bottom of the valid range; std::time phase: fractions {0,.25,.5,.75,.875,1}; 1-2 machines; depth bound.",
    tech="explicit-state BFS of the real implementation over a virtual clock with a recomputing observer"),
  "C04": dict(engine="E1", cat="model_checking", ref="3 C04",
    text=E1 + " with batches of 0..2 events plus long batches; oracle on the returned iterator: distinct existing machine ids, at most one action per machine, kind/flags defined by some state of that machine, timeouts/durations <= 24 h (heavy-tailed and 1e300 distributions under extreme RNG words), silence of ended machines in later calls.",
@@ -61,7 +61,7 @@ META.update({
    text=E4 + " for sets with padding/blocking/cancel gadgets (timeouts from 0, actions re-issued before firing, cancels of each timer kind, several machines per side); per-machine monitor bound by replay: every PaddingSent/BlockingBegin is the firing of the most recent action at issue time + timeout, once; superseded or cancelled actions never fire; unsuperseded ones fire before time moves past them.",
    note=SIMNOTE, tech="bounded-exhaustive enumeration of closed systems on the real simulator with a replay-bound action-timer monitor"),
  "C18": dict(engine="E4", cat="model_checking", ref="5 C18",
-   text=E4 + " for sets with UpdateTimer gadgets (both replace settings, durations from 0, repeated updates at one instant, cancels, several machines, both sides); per-machine monitor bound by replay: expiry per the UpdateTimer contract, TimerBegin at the instant of every setting action, TimerEnd exactly once at the expiry, never for cancelled/superseded timers.",
+   text=E4 + " for sets with UpdateTimer gadgets (both replace settings, durations from 0, repeated updates at one instant, cancels, several machines, both sides); per-machine monitor bound by replay: expiry per the UpdateTimer contract, TimerBegin at the instant of every setting action, TimerEnd exactly once at the expiry, never for cancelled/superseded timers; timers expiring while a block is active; a further set of systems runs pure timer gadgets under a constant integration reporting delay with a trace-level monitor.",
    note=SIMNOTE, tech="bounded-exhaustive enumeration of closed systems on the real simulator with a replay-bound internal-timer monitor"),
  "C19": dict(engine="E4", cat="model_checking", ref="5 C19",
    text=E4 + " x packets-per-second limits {none,1,2,10,1000,2^32-1,2^32,usize::MAX} x stop conditions x all filter combinations x seeds; oracle: no panic (crash containment), two runs on clones of the same queue identical, filtered outputs equal the projection (prefix under a length cap) of the unfiltered trace, stop bounds respected, time order.",
@@ -74,12 +74,12 @@ META.update({
    note="The draw is rand's gen_range(0f32..1f32) = (word >> 9) / 2^23; vectors from a fixed menu of probabilities.",
    tech="exhaustive enumeration of all 2^23 outcomes of the random draw through the real sampling function (exact counting, no statistics)"),
  "C11": dict(engine="E3", cat="fault_enumeration", ref="4 C11",
-   text="Valid side: every machine of the generated families plus size classes crossing every internal buffer boundary of the decode path (incl. the largest machines that still fit 1 MiB) must round-trip (string, name, Debug, framework behaviour). Hostile side: exhaustive single-fault enumeration of valid encodings - every truncation, every substitution and insertion of 20 symbols (incl. multibyte) at every position, every bit flip and truncation at the compressed and at the bincode layer, every version prefix - all short strings over a 12-symbol alphabet, the legacy v1 parser with a harness-side encoder (every header field / distribution parameter corner, single faults), and zlib bombs up to 1 GiB; oracle: no panic, Err or a machine that validates, heap peak bounded by a constant plus the input length (counting allocator).",
+   text="Valid side: every machine of the generated families plus size classes crossing every internal buffer boundary of the decode path (incl. the largest machines that still fit 1 MiB) must round-trip (string, name, Debug, framework behaviour). Hostile side: exhaustive single-fault enumeration of valid encodings - every truncation, every substitution and insertion of 20 symbols (incl. multibyte) at every position, every bit flip and truncation at the compressed and at the bincode layer, every version prefix - all short strings over a 12-symbol alphabet, the legacy v1 parser with a harness-side encoder (every header field / distribution parameter corner, single faults), and zlib bombs up to 1 GiB; and the harness-made encodings of every C12 candidate machine; oracle: no panic, Err or a machine that validates, satisfies the independent well-formedness predicate and can drive a framework, heap peak bounded by a constant plus the input length (counting allocator).",
    note="All single faults (thorough: all pairs of bit flips of the no-op machine), not all strings; heap measured per thread around the call.",
    tech="exhaustive single-fault enumeration of valid encodings plus bounded-exhaustive short-string enumeration, with crash containment and a heap-peak oracle"),
  "C12": dict(engine="E3", cat="exploration", ref="4 C12",
-   text="Bounded-exhaustive enumeration of machine literals assembled through the public constructors and fields: every numeric slot (machine fractions, transition probabilities, every parameter / start / max of all 11 distribution families in 7 positions) set to each value of a 22-value corner menu (NaN, infinities, negative zero, subnormals, one ulp beyond each bound), plus structural faults; the four judgements Machine::new / validate / Framework::new / from_str(serialize) must agree, accepted machines must satisfy an independent well-formedness predicate, build frameworks for fractions in [0,1] and run.",
-   note="One slot at a time (thorough: all pairs within a distribution and pairs of fractions); the distribution-domain predicate is no stronger than rand_distr 0.4.3's.",
+   text="Bounded-exhaustive enumeration of machine literals assembled through the public constructors and fields: every numeric slot (machine fractions, transition probabilities, every parameter / start / max of all 11 distribution families in 7 positions) set to each value of a 22-value corner menu (NaN, infinities, negative zero, subnormals, one ulp beyond each bound), plus structural faults; the four judgements Machine::new / validate / Framework::new / from_str(serialize) must agree, accepted machines must satisfy an independent well-formedness predicate, build frameworks for fractions in [0,1] and run; Framework::new is judged on every pair of corner values as its own fractions.",
+   note="One slot at a time, pairs of slots both at one of 8 extremes (thorough: all pairs within a distribution and pairs of fractions); the distribution-domain predicate is no stronger than rand_distr 0.4.3's.",
    tech="bounded-exhaustive input enumeration against an independent reference predicate with a four-way differential between the acceptance paths"),
  "C13": dict(engine="E3", cat="exploration", ref="4 C13",
    text="All validated distributions of a parameter corner grid over the 11 families x (start,max) corner pairs, each sampled under every RNG script that deviates from a fair stream by a prefix of at most d extreme words (d = 2 quick / 3 thorough, 9-word menu) or a 64-word constant prefix, followed by a fair tail; oracle: returns within 1e5 draws and 250 ms (watchdog-isolated helper processes for Binomial), no panic, value not NaN, >= 0, <= max when set; also through the framework's consumers (timeout, duration, limit, counter).",
